@@ -355,6 +355,7 @@ pub struct Ics20Scen {
     code_legacy: u64,
     contract: Option<Addr>,
     flights: Vec<Flight>,
+    legacy: bool,
     seed: u64,
 }
 
@@ -373,6 +374,7 @@ impl Ics20Scen {
             code_legacy: 0,
             contract: None,
             flights: vec![],
+            legacy: false,
             seed: 0,
         };
         s.setup();
@@ -440,6 +442,7 @@ impl Ics20Scen {
         self.code_legacy = code_legacy;
         self.contract = None;
         self.flights.clear();
+        self.legacy = false;
     }
 
     fn api(&self) -> MockApi {
@@ -729,10 +732,11 @@ impl Ics20Scen {
                 hold.iter().map(|(d, h)| format!("{d}|{h}")).collect::<Vec<_>>().join(",")
             );
         }
-        let timeout = match rng.below(8) {
+        let timeout = match rng.below(40) {
             0 => 0,
             1 => u64::MAX,
             2 => 18_446_744_073,
+            3 => 18_446_744_073 - 1_571_797_420,
             _ => 1 + rng.below(100_000),
         };
         format!("inst gov={} timeout={} gas={} allow={}", self.gen_addr(rng), timeout, self.gen_gas(rng), self.gen_allowlist(rng, false))
@@ -758,11 +762,14 @@ impl Ics20Scen {
     fn gen_transfer_msg(&self, rng: &mut Rng) -> String {
         let conn = self.connected();
         let chan = if conn.is_empty() || rng.chance(1, 15) { rng.pick(&CHANS).to_string() } else { rng.pick(&conn).clone() };
-        let timeout = match rng.below(10) {
+        let now_s = self.app.block_info().time.nanos() / 1_000_000_000;
+        let timeout = match rng.below(30) {
             0 => "0".to_string(),
             1 => u64::MAX.to_string(),
             2 => "18446744073".to_string(),
-            3 | 4 => (1 + rng.below(10_000)).to_string(),
+            3 => (18_446_744_073 - now_s).to_string(),
+            4 => (18_446_744_073 - now_s - 1).to_string(),
+            5..=10 => (1 + rng.below(10_000)).to_string(),
             _ => "-".to_string(),
         };
         let memo = if rng.chance(1, 4) { format!("m{}", rng.below(5)) } else { "-".to_string() };
@@ -776,14 +783,27 @@ impl Ics20Scen {
         if rng.chance(1, 20) {
             return format!("ibc recv chan={} sport={} schan={} raw=1 rcv={} tv=1 fail=0", dest, REMOTE_PORT, cp, self.gen_addr(rng));
         }
-        // candidates: what is outstanding on that channel
-        let state = self.channel(&dest).unwrap_or_default();
-        let (local, out) = if !state.is_empty() && rng.chance(5, 6) {
-            let e = rng.pick(&state);
-            (e.0.clone(), e.1)
+        // candidates: what is outstanding (mostly on a channel that has something to redeem)
+        let mut cands: Vec<(String, String, u128)> = vec![];
+        for c in &conn {
+            for e in self.channel(c).unwrap_or_default() {
+                if e.1 > 0 {
+                    cands.push((c.clone(), e.0, e.1));
+                }
+            }
+        }
+        let (dest, local, out) = if !cands.is_empty() && rng.chance(9, 10) {
+            rng.pick(&cands).clone()
         } else {
-            (rng.pick(&self.all_denoms()).clone(), 0)
+            let state = self.channel(&dest).unwrap_or_default();
+            if !state.is_empty() && rng.chance(1, 2) {
+                let e = rng.pick(&state);
+                (dest, e.0.clone(), e.1)
+            } else {
+                (dest, rng.pick(&self.all_denoms()).clone(), 0)
+            }
         };
+        let cp = counterparty(&dest);
         let local = match rng.below(30) {
             0 => "uforeign".to_string(),
             1 => format!("cw20:{}", self.pool[0]),
@@ -798,11 +818,12 @@ impl Ics20Scen {
             4 => format!("{}/{}/{}", REMOTE_PORT, counterparty(*rng.pick(&CHANS[..])), local),
             _ => format!("{}/{}/{}", REMOTE_PORT, cp, local),
         };
-        let amt = match rng.below(10) {
+        let amt = match rng.below(16) {
             0 => out.saturating_add(1),
-            1 | 2 => out,
-            3 => 0,
-            4 => out.saturating_add(1 + rng.below(1000) as u128),
+            1 | 2 | 3 => out,
+            4 => 0,
+            5 => out.saturating_add(1 + rng.below(1000) as u128),
+            6 => out.saturating_sub(1),
             _ => {
                 if out > 0 {
                     1 + (rng.u128() % out)
@@ -926,6 +947,16 @@ impl Scenario for Ics20Scen {
             return self.gen_inst(rng);
         }
         let conn = self.connected();
+        // what could be redeemed right now
+        let mut redeemable = 0usize;
+        for c in &conn {
+            redeemable += self.channel(c).unwrap_or_default().iter().filter(|e| e.1 > 0).count();
+        }
+        if self.legacy && rng.chance(1, 4) {
+            self.legacy = false;
+            let gas = if rng.chance(1, 2) { "-".to_string() } else { self.gen_gas(rng) };
+            return format!("migrate gas={gas}");
+        }
         let r = rng.below(100);
         if r < 4 {
             let b = self.app.block_info();
@@ -933,7 +964,7 @@ impl Scenario for Ics20Scen {
             let dt = *rng.pick(&[0u64, 1, 5_000_000_000, 20_000_000_000]);
             return format!("env height={} time={}", b.height + dh, b.time.nanos() + dt);
         }
-        if r < 12 || (conn.is_empty() && r < 40) {
+        if r < 10 || (conn.len() < 2 && !self.legacy && r < 45) {
             let chan = rng.pick(&CHANS);
             let (ver, cver, order) = match rng.below(12) {
                 0 => ("ics20-2", "ics20-1", "unordered"),
@@ -944,7 +975,7 @@ impl Scenario for Ics20Scen {
             };
             return format!("ibc connect chan={chan} ver={ver} cver={cver} order={order}");
         }
-        if r < 20 {
+        if r < 18 {
             // governance
             let admin: Option<cw_controllers::AdminResponse> = self.q(&QueryMsg::Admin {});
             let admin = admin.and_then(|a| a.admin);
@@ -969,11 +1000,11 @@ impl Scenario for Ics20Scen {
             };
             return format!("exec {snd} allow contract={c} gas={gas}");
         }
-        if r < 24 {
+        if r < 21 {
             let gas = if rng.chance(1, 2) { "-".to_string() } else { self.gen_gas(rng) };
             return format!("migrate gas={gas}");
         }
-        if r < 30 {
+        if r < 26 {
             let lim = match rng.below(8) {
                 0 => "-".to_string(),
                 1 => "0".to_string(),
@@ -992,7 +1023,7 @@ impl Scenario for Ics20Scen {
                 _ => format!("query list_allowed after={after} limit={lim}"),
             };
         }
-        if r < 58 {
+        if r < 56 || (redeemable == 0 && self.flights.is_empty() && r < 90) {
             // user transfers
             let snd = rng.pick(&self.pool).clone();
             let tm = self.gen_transfer_msg(rng);
@@ -1022,7 +1053,7 @@ impl Scenario for Ics20Scen {
             let amt = { let base = 1 + rng.below(3000) as u128; self.amount_near(rng, base) };
             return format!("exec {snd} hook funds={funds} sender={} amt={amt} {tm}", self.gen_addr(rng));
         }
-        if r < 80 || self.flights.is_empty() {
+        if (r < 82 && (redeemable > 0 || r < 62)) || self.flights.is_empty() {
             return self.gen_recv(rng);
         }
         // acknowledgement or timeout for a packet in flight (exactly one per packet, any order)
@@ -1118,6 +1149,7 @@ impl Scenario for Ics20Scen {
                     }
                 }
                 self.contract = Some(addr);
+                self.legacy = true;
                 vec!["> ok".to_string(), self.observe(op)]
             }
             "migrate" => {
